@@ -3,7 +3,7 @@ import ast
 
 from ..core.loader import AnalysisError, own_nodes, norm, enclosing_stmt
 from ..core import astq
-from ..core.cfg import guards_of
+from ..core.cfg import guards_of, branch_guards
 from ..core.dataflow import assigned_value
 from . import common as K
 from . import flowalg
@@ -30,6 +30,7 @@ def run(ctx):
     ctx.each(r05g, ctx, repo)
     ctx.each(flowalg.duration_rule, ctx, repo, "R05h")
     ctx.each(flowalg.flush_formula_rule, ctx, repo, "R05i")
+    ctx.each(r05k, ctx, repo)
     ctx.each(discretise.snap_tolerance_rule, ctx, repo, "R05j", [("model", _row_count_helper(repo))])
 
 
@@ -307,3 +308,33 @@ def r05g(ctx, repo):
                 g = [ast.unparse(t) for t, pol in guards_of(c, stop=loops[0]) if pol]
                 ctx.check(any(cell_txt == want for cell_txt in [cell(t) for t, pol in guards_of(c, stop=loops[0]) if pol]), "R05g", fi, enclosing_stmt(c), "a compartment with a duration group becomes a TimedCompartment", "TimedCompartment is not created under the test `%s` (conditions: %s)" % (want, g), stmt_text="timed-iff-duration-group")
     ctx.require(n >= 3, "R05g: fewer duration-group constructor sites (%d) in Population.build than confirmed (3)" % n)
+
+
+def r05k(ctx, repo):
+    from ..core import boolx as B
+
+    ctx.rule("R05k", "a junction belongs to a duration group exactly when the documented condition holds: in ProjectFramework._assign_junction_duration_groups the store of the junction's 'duration group' is reached iff there is exactly one attached group upstream and downstream, the attached groups are all the groups on each side, and both sides agree - no other exit (continue / return) in the junction loop can skip the decision; the attachment test of a connection is `par == '>' or the parameter is not timed`")
+    fi = repo.func("framework", "ProjectFramework._assign_junction_duration_groups")
+    st = [s for s in own_nodes(fi.node) if isinstance(s, ast.Assign) and isinstance(s.targets[0], ast.Subscript) and "'duration group'" in ast.unparse(s.targets[0].slice) and ast.unparse(s.targets[0].value).endswith(".comps.at")]
+    ctx.require(len(st) == 1, "R05k: the assignment of a junction's duration group was not found")
+    loops = K.enclosing_loops(st[0])
+    ctx.require(bool(loops), "R05k: the junction loop was not found")
+    want = B.parse_cond("len(upstream_attachments) == 1 and len(downstream_attachments) == 1 and upstream_attachments == upstream_groups and downstream_attachments == downstream_groups and upstream_attachments == downstream_attachments")
+    got = B.cond(guards_of(st[0], stop=loops[0], asserts=False))
+    ok = B.equivalent(got, want)
+    ctx.check(ok, "R05k", fi, st[0], "membership decided by the documented condition only", "the junction's duration group is assigned under a condition that differs from the documented one (e.g. when %s): a junction that should carry elapsed time through is left outside its group (or the reverse), the links through it become plain Links and cohorts passing through it restart their clock" % B.counterexample(got, want))
+    ok = ast.unparse(st[0].value) == "list(upstream_attachments)[0]"
+    ctx.check(ok, "R05k", fi, st[0], "the group assigned is the one attached group", "`%s` does not assign the single attached group" % norm(st[0])[:80], stmt_text="group-value")
+    # the two traversals feed the decision
+    tr = [s for s in loops[0].body if isinstance(s, ast.Assign) and isinstance(s.value, ast.Call) and ast.unparse(s.value.func) == "get_attached_comps"]
+    dirs = sorted(ast.unparse(s.value.args[2]) for s in tr if len(s.value.args) >= 3)
+    ctx.check(dirs == ["'downstream'", "'upstream'"], "R05k", fi, tr[0] if tr else loops[0], "both directions traversed for every junction", "the upstream and downstream traversals are not both performed (unconditionally) for every junction", stmt_text="traversals")
+    # attachment test inside the traversal
+    inner = fi.nested.get("get_attached_comps") if hasattr(fi, "nested") else None
+    if inner is not None:
+        adds = [c for c in own_nodes(inner.node) if isinstance(c, ast.Call) and ast.unparse(c.func) == "attachments.add"]
+        ok = len(adds) == 1
+        if ok:
+            g = branch_guards(enclosing_stmt(adds[0]))
+            ok = any(pol and B.equivalent(B.of(t), B.parse_cond("par == '>' or not (self.pars.at[par, 'timed'] == 'y')")) for t, pol in g)
+        ctx.check(ok, "R05k", inner, enclosing_stmt(adds[0]) if adds else inner.node, "a connection attaches its group unless it is the timed (flush) outflow", "the attachment test of get_attached_comps is not `par == '>' or self.pars.at[par, 'timed'] != 'y'`", stmt_text="attachment-test")
